@@ -850,6 +850,12 @@ class Interp:
                     obj.fields[attr] = self.fresh(lc.types[key], key)
                 else:
                     obj.fields[attr] = self.havoc_like(obj.fields[attr], key)
+        if self.ghost_clock or self._time0 is not None:
+            # at the head of an arbitrary iteration time has moved on: earlier iterations may have read the clock or waited
+            # (the external clock is part of the state a loop cut forgets; it never goes back)
+            from .models2 import m_time
+
+            m_time(self, [], {})
         for clsname, attr in getattr(lc, "modifies_heap", []):
             decl = self.reg.heap_classes[clsname]
             self.models.heap_array(self, clsname, attr, decl[attr])
